@@ -1,6 +1,8 @@
 import Driver.Parse
 import Driver.Proxy
 import Driver.E2E
+import Driver.Sched
+import Driver.Flow
 import FpVerif.Spec.JA3
 import FpVerif.Spec.Capture
 import FpVerif.Spec.H2Fp
@@ -246,6 +248,8 @@ def handle (cmd : String) (args : List String) : String :=
       | some stream => capSpec stream (if cuts = "" then [] else cuts.splitOn ",")
       | none => "bad-op"
     | _, _ => "bad-op"
+  | "flow", toks => (flowRun toks).getD "bad-op"
+  | "sched", toks => (schedRun toks).getD "bad-op"
   | "h2conc", toks => (h2concCheck toks).getD "bad-op"
   | "h2fp", toks => (h2fpRun true toks).getD "bad-op"
   | "h2fpm", toks => (h2fpRun false toks).getD "bad-op"
